@@ -7,7 +7,9 @@ From SV Require Import Lib.Bytes Lib.DgramLib Model.Chan Model.Dgram Gen.Consts.
 Import ListNotations.
 Local Open Scope N_scope.
 
-Definition is_accept (e : cevent) : bool := match e with EFrame _ _ _ => false | _ => true end.
+(* the listener events of the composed system (the end of a TCP flow belongs to the stream core; the client-side
+   step ETcpEnd is part of cstep / crun only) *)
+Definition is_accept (e : cevent) : bool := match e with EFrame _ _ _ => false | ETcpEnd _ => false | _ => true end.
 
 Definition fcmd_of (cmd : N) : fcmd :=
   if cmd =? CMD_DNS_REQ then FDnsReq else if cmd =? CMD_UDP_OPEN then FUdpOpen
